@@ -21,6 +21,7 @@ def fresh_serial() -> int:
 
 class Val:
     kind = 'unknown'
+    dt = None       # element type shadow (dtypes.py): set where NumPy fixes or inherits a dtype
 
     def struct_eq(self, o) -> bool:
         return self is o
@@ -397,7 +398,9 @@ def _minmax_form(pred: Val, a: 'Num', b: 'Num'):
 
 def arr_param(label: str, kind='ndarray', length: Optional[Rat] = None) -> Num:
     ref = Ref(label)
-    return Num(sym.A('el', ref, sym.idx()), length if length is not None else sym.A('Len', ref), kind)
+    n = Num(sym.A('el', ref, sym.idx()), length if length is not None else sym.A('Len', ref), kind)
+    n.dt = ('same', label)
+    return n
 
 
 def scalar_param(label: str) -> Num:
